@@ -39,8 +39,8 @@ func (c15) Assumptions() []string {
 }
 
 type c15Case struct {
-	Src    string   `json:"src,omitempty"`   // Go-quoted program or prefix
-	Kind   string   `json:"check"`           // "whole", "cut", "chunks"
+	Src    string   `json:"src,omitempty"` // Go-quoted program or prefix
+	Kind   string   `json:"check"`         // "whole", "cut", "chunks"
 	Chunks []string `json:"chunks,omitempty"`
 }
 
